@@ -11,6 +11,11 @@ for d, _, fs in os.walk(spec):
         if f.endswith(".tla"):
             shutil.copy(os.path.join(d, f), os.path.join(tmp, f))
             mods.append(f)
+tlaps_std = "/opt/veriftools/tlapm/lib/tlapm/stdlib/TLAPS.tla"    # proof modules EXTEND TLAPS (not on SANY's classpath)
+if os.path.exists(tlaps_std):
+    shutil.copy(tlaps_std, os.path.join(tmp, "TLAPS.tla"))
+elif "CursorProof.tla" in mods:
+    mods = [m for m in mods if not m.endswith("Proof.tla")]
 bad = 0
 with concurrent.futures.ThreadPoolExecutor(8) as ex:
     for f, (ok, out) in zip(mods, ex.map(lambda m: tlc.sany(os.path.join(tmp, m), tmp), mods)):
